@@ -24,6 +24,7 @@
 EXTENDS Integers, Sequences, FiniteSets, FiniteSetsExt, SequencesExt, TLC, Json, IOUtils
 
 CONSTANTS LEGS,      \* staircase routes of 1..LEGS unit legs (each 2 lattice units long), directions E and N
+          GLEGS,     \* self-avoiding routes of 1..GLEGS unit legs in all four directions (U- and S-shapes, spirals)
           MAXCP,     \* at most MAXCP checkpoints per route
           FIX        \* design level only: TRUE = re-indexing as the comment describes, FALSE = as the code computed it before the repair
 
@@ -32,10 +33,13 @@ Btw(u, v, x) == (u <= x /\ x <= v) \/ (v <= x /\ x <= u)
 OnSeg(a, b, p) == Cross(a, b, p) = 0 /\ Btw(a[1], b[1], p[1]) /\ Btw(a[2], b[2], p[2])
 
 \* ---- instances ------------------------------------------------------------
-Step(d) == IF d = 0 THEN <<2, 0>> ELSE <<0, 2>>
+Step(d) == CASE d = 0 -> <<2, 0>> [] d = 1 -> <<0, 2>> [] d = 2 -> <<-2, 0>> [] OTHER -> <<0, -2>>
 RECURSIVE Walk(_, _)
 Walk(p, ds) == IF ds = <<>> THEN <<p>> ELSE <<p>> \o Walk(<<p[1] + Step(Head(ds))[1], p[2] + Step(Head(ds))[2]>>, Tail(ds))
-Routes == UNION {{Walk(<<0, 0>>, ds) : ds \in [1..n -> {0, 1}]} : n \in 1..LEGS}
+Staircases == UNION {{Walk(<<0, 0>>, ds) : ds \in [1..n -> {0, 1}]} : n \in 1..LEGS}
+\* distinct lattice points joined by unit legs: a simple curve (a leg meets other legs only in lattice points)
+SelfAvoiding == {w \in UNION {{Walk(<<0, 0>>, ds) : ds \in [1..n -> 0..3]} : n \in 1..GLEGS} : Cardinality({w[i] : i \in DOMAIN w}) = Len(w)}
+Routes == Staircases \cup SelfAvoiding
 \* the point a cache value denotes on route P (1-based sequence, 0-based values)
 PointOf(P, v) == IF v % 2 = 0 THEN P[v \div 2 + 1]
                  ELSE LET a == P[(v - 1) \div 2 + 1]  b == P[(v + 1) \div 2 + 1] IN <<(a[1] + b[1]) \div 2, (a[2] + b[2]) \div 2>>
